@@ -419,8 +419,10 @@ func (r *runner) runHistory(h *History, emit bool) []stepOut {
 		post := w.dumpAll()
 		outs = append(outs, stepOut{ok, pmsg, emsg})
 		r.c.Count("op:" + o.M)
+		r.c.Count(fmt.Sprintf("target-flag:%d", pre[o.ID%nPoolIDs].Flag))
 		if ok {
 			r.c.Count("accepted:" + mclass(o.M))
+			r.c.Count("accepted-method:" + o.M)
 			accepted++
 			kinds[o.M] = true
 		} else {
@@ -583,7 +585,7 @@ func Run(c *hx.Ctx) {
 	nh := c.N(60, 900)
 	for i := 0; i < nh; i++ {
 		rng := rand.New(rand.NewSource(c.Seed*1000003 + int64(i)))
-		n := 25 + rng.Intn(25)
+		n := 40 + rng.Intn(30)
 		h := r.genHistory(rng, n, fmt.Sprintf("generated:%d", i))
 		r.runHistory(h, true)
 		c.Count("history:generated")
